@@ -28,6 +28,7 @@ fn decode(u: &mut Unstructured) -> arbitrary::Result<Case> {
         cfg.hs[i] = hs[u.int_in_range(0..=3usize)?];
     }
     cfg.sketch_seed = Some(u.arbitrary::<u8>()? as u64);
+    cfg.perm = (cfg.sketch_seed.unwrap_or(0) >> 6) as u8; // builder call sequence
     let alphabet = (cfg.total_cap(kind) * 2 + 2) as u16;
     let mut ops = vec![];
     while !u.is_empty() && ops.len() < 200 {
